@@ -156,6 +156,8 @@ def pop_modify_rebuild():
     """nodes evaluated in a first model, popped, a strong value changed outside any model, rebuilt"""
     import liesel.model as lsl
     m = regression(transform=False)
+    m.vars["beta"].value = jnp.array([0.2, 0.1])        # the inputs are assigned (and everything re-evaluated) while they belong to the first model
+    m.vars["sigma"].value = jnp.array(1.1)
     nodes, vars_ = m.pop_nodes_and_vars()
     vars_["beta"].value = jnp.array([0.7, -0.4])
     vars_["sigma"].value = jnp.array(0.9)
